@@ -71,6 +71,27 @@ def alloc_section():
     tests = [ast.unparse(n.test) for n in ast.walk(fn) if isinstance(n, ast.If)]
     ob("ODLParser.parse_units:numeric-guard-includes-the-configured-real_cls",
        any("self.decoder.real_cls" in t for t in tests), tests, "pvl.parser.ODLParser.parse_units")
+    # the caller's decoder object is used as given (a rebuilt decoder would lose real_cls / quantity_cls)
+    ci, fn = progp.function("pvl.parser.PVLParser.__init__")
+    assigns = sorted(ast.unparse(n.value) for n in ast.walk(fn) if isinstance(n, ast.Assign)
+                     and ast.unparse(n.targets[0]) == "self.decoder")
+    ob("PVLParser.__init__:self.decoder-is-the-given-decoder-or-the-default-OmniDecoder(grammar=self.grammar)",
+       assigns == sorted(["decoder", "OmniDecoder(grammar=self.grammar)"]), assigns, "pvl.parser.PVLParser.__init__")
+    for cls in ("ODLParser", "OmniParser"):
+        d, f2 = progp.find_method(cls, "__init__")
+        ob(f"{cls}.__init__:inherited-from-PVLParser", d == "PVLParser")
+    stores = [(c[0], c[3]) for c in call_sites("pvl.parser", {"PVLDecoder", "ODLDecoder", "PDSLabelDecoder", "OmniDecoder", "type"})
+              if not (c[0] == "PVLParser.__init__" and c[1] == "OmniDecoder")]
+    bad = [x for x in stores if x[1].startswith(("type(decoder)", "type(self.decoder)", "PVLDecoder(", "ODLDecoder(",
+                                                  "PDSLabelDecoder(", "OmniDecoder("))]
+    ob("pvl.parser:no-other-decoder-construction", not bad, bad)
+    for mod, fnname in (("pvl", "loads"), ("pvl.new", "loads")):
+        pr = Program([mod])
+        f3 = pr.functions[f"{mod}.loads"]
+        calls = [c for c in ast.walk(f3) if isinstance(c, ast.Call) and ast.unparse(c.func) == "OmniParser"]
+        ok = len(calls) == 1 and any(k.arg == "decoder" and ast.unparse(k.value) == "decoder" for k in calls[0].keywords) \
+            and any(k.arg == "grammar" and ast.unparse(k.value) == "grammar" for k in calls[0].keywords)
+        ob(f"{mod}.loads:passes-the-caller's-grammar-and-decoder-on-unchanged", ok)
     # every value flows through decode_simple_value
     dv = call_sites("pvl.parser", {"decode_simple_value", "decode_decimal", "decode_non_decimal", "decode_datetime",
                                    "decode_quoted_string", "decode_unquoted_string", "decode"})
